@@ -15,7 +15,7 @@ import translate_span
 ID = 'C16'
 COMPONENTS = ['span']
 THEOREMS = ['C16_consts_ok', 'C16_span_history_roundtrip', 'C16_span_valid_request_accepted',
-            'C16_lookup_is_count', 'C16_crop_slices_in_range', 'C16_nonvacuous']
+            'C16_lookup_is_count', 'C16_surrounding_span_valid', 'C16_crop_slices_in_range', 'C16_nonvacuous']
 ALLOWED_AXIOMS = set()
 
 
